@@ -94,6 +94,9 @@ class TicketType(MichelsonType, prim='ticket', args_len=1):
     def merge_lazy_diff(self, lazy_diff: List[dict]) -> 'MichelsonType':
         return self
 
+    def aggregate_lazy_diff(self, lazy_diff: List[dict], mode='readable') -> 'MichelsonType':
+        return self  # tickets hold no lazy storage and must not be copied
+
     def split(self, amount_left: int, amount_right: int) -> Optional[Tuple['TicketType', 'TicketType']]:
         if amount_left + amount_right != self.amount or amount_left == 0 or amount_right == 0:
             return None  # zero-amount tickets cannot exist
